@@ -260,6 +260,8 @@ def run(ctx):
               ("cpp-map-key-no-hash", "Pc: !protocol\n  sequence:\n    d: complexfloat32->int32\n    e: complexfloat64->string\n"),
               ("python-alias-of-inline-nullable-union", "Rk: !record\n  fields:\n    n: [null, int32, float32]\n\nMaybeNum: [null, int32, float32]\n\n"
                "Ral: !record\n  fields:\n    num: MaybeNum\n\nPu: !protocol\n  sequence:\n    r: Ral\n    k: Rk\n"),
+              ("generic-parameter-only-in-array-element-arguments", "R2<D>: !record\n  fields:\n    d: D\n\nRec<D>: !record\n  fields:\n    f: R2<D>[]\n    g: R2<D>[2]\n\n"
+               "Pg: !protocol\n  sequence:\n    r: Rec<int32>\n    s: !stream\n      items: Rec<string>\n"),
               ("map-key-ok", "Pk: !protocol\n  sequence:\n    g: bool->bool\n    h: string->string*\n    i: uint64->float32\n    j: size->int8\n")]
     for i, (key, model) in enumerate(shapes):
         d = os.path.join(ctx.scratch, "shape%d" % i)
